@@ -51,36 +51,10 @@ def unhx(h):
 
 # ------------------------------------------------------------------------------------------------ source facts
 def source_facts():
-    """facts of the anchored code the model depends on, re-read on every run (fails closed)"""
-    src = (vlib.REPO / "src/phreeqcpp/mainsubs.cpp").read_text()
-    m = re.search(r"\ncopy_entities\(void\)(.*?)\n}\n", src, re.S)
-    if not m:
-        raise ValueError("copy_entities not found")
-    loops = re.findall(r"for \((\w+) i = copy_(\w+)\.start\[j\]; i <= copy_\w+\.end\[j\]; i\+\+\)", m.group(1))
-    types = {t for t, _ in loops}
-    if len(loops) != 11 or len(types) != 1 or types - {"size_t", "int"}:
-        raise ValueError(f"copy_entities loops not recognised: {loops}")
-    order = [k for _, k in loops]
-    exp_order = ["solution", "pp_assemblage", "reaction", "mix", "exchange", "surface", "temperature", "pressure",
-                 "gas_phase", "kinetics", "ss_assemblage"]
-    if order != exp_order:
-        raise ValueError(f"copy_entities order changed: {order}")
-    sv = re.search(r"\nsaver\(void\)(.*?)\n}\n", src, re.S).group(1)
-    chain = {}
-    for k, mp in (("solution", "Rxn_solution_map"), ("pp", "Rxn_pp_assemblage_map"), ("exchange", "Rxn_exchange_map"),
-                  ("surface", "Rxn_surface_map"), ("gas", "Rxn_gas_phase_map"), ("ss", "Rxn_ss_assemblage_map")):
-        c = len(re.findall(r"Utilities::Rxn_copies\(" + mp, sv))
-        e = len(re.findall(r"Utilities::Rxn_copy\(" + mp, sv))
-        if c + e != 1:
-            raise ValueError(f"saver: fan-out of {k} not recognised")
-        chain[k] = bool(c)
-    if chain != {"solution": False, "pp": True, "exchange": False, "surface": True, "gas": False, "ss": True}:
-        raise ValueError(f"saver fan-out changed: {chain}")
-    hdr = (vlib.REPO / "src/phreeqcpp/Phreeqc.h").read_text()
-    if not re.search(r"void Rxn_copies\(.*?if \(n_user_end <= n_user\) return;.*?for \(int j = n_user \+ 1; j <= n_user_end; j\+\+\)",
-                     hdr, re.S):
-        raise ValueError("Rxn_copies loop shape not recognised")
-    return {"copy_loop": "sizet" if types == {"size_t"} else "int", "saver_chain": chain}
+    """facts of the anchored code the model depends on: read by the structural translator tools/gen_store.py (statement
+    trees, aliases / file-local helpers / enumerators resolved, switch cases as a set) — nothing here matches source text"""
+    f = gen_store.extract()
+    return {"copy_loop": f["copy_loop"], "saver_chain": dict(f["saver"])}
 
 
 # ------------------------------------------------------------------------------------------------ dump text
@@ -827,7 +801,6 @@ def run(ctx):
             gen_keywords.generate(ctx)
         except ImportError:
             pass
-        source_facts()
         ctx.cov["source_facts"] = {k: facts[k] for k in ("do_run", "copy_loop", "saver", "bin_vopts", "bin_cases")}
         facts_ok = True
     except Exception as e:       # code shape not recognised: protocol P
